@@ -393,6 +393,90 @@ func extractPipe(w *strings.Builder) error {
 		return lookup && store
 	}
 
+	// --- enum default filters: producer's check (buildField, enum arm: the error of
+	// enumRef.mapValues(<…>.DefaultFilters) is returned), mapValues' spelling rule, and the
+	// consumer's lookup (OptionByName, buildEnum's prefix)
+	enumDefaultsChecked := false
+	if _, ff, err := parseFile("internal/j5s/j5convert/fields.go"); err == nil {
+		if fd := funcDecl(ff, "buildField"); fd != nil {
+			ast.Inspect(fd.Body, func(n ast.Node) bool {
+				cc, ok := n.(*ast.CaseClause)
+				if !ok || len(cc.List) != 1 || exprString(cc.List[0]) != "*schema_j5pb.Field_Enum" {
+					return true
+				}
+				ast.Inspect(clauseBlock(cc), func(m ast.Node) bool {
+					is, ok := m.(*ast.IfStmt)
+					if !ok || is.Init == nil {
+						return true
+					}
+					as, ok := is.Init.(*ast.AssignStmt)
+					if !ok || len(as.Rhs) != 1 {
+						return true
+					}
+					ce, ok := as.Rhs[0].(*ast.CallExpr)
+					if !ok || exprString(ce.Fun) != "enumRef.mapValues" || len(ce.Args) != 1 || !strings.HasSuffix(exprString(ce.Args[0]), ".DefaultFilters") {
+						return true
+					}
+					if be, ok := is.Cond.(*ast.BinaryExpr); ok && be.Op == token.NEQ && exprString(be.X) == "err" && exprString(be.Y) == "nil" {
+						for _, st := range is.Body.List {
+							if rs, ok := st.(*ast.ReturnStmt); ok && len(rs.Results) == 2 && exprString(rs.Results[0]) == "nil" && exprString(rs.Results[1]) != "nil" {
+								enumDefaultsChecked = true
+							}
+						}
+					}
+					return true
+				})
+				return false
+			})
+		}
+	}
+	callFacts := func(rel, fn string, funs ...string) []string {
+		_, f, err := parseFile(rel)
+		if err != nil {
+			return []string{"<" + rel + " unreadable>"}
+		}
+		fd := funcDecl(f, fn)
+		if fd == nil {
+			return []string{"<" + fn + " not found>"}
+		}
+		out := []string{}
+		ast.Inspect(fd.Body, func(n ast.Node) bool {
+			switch x := n.(type) {
+			case *ast.CallExpr:
+				for _, want := range funs {
+					if exprString(x.Fun) == want {
+						args := []string{}
+						for _, a := range x.Args {
+							args = append(args, exprString(a))
+						}
+						out = append(out, want+" "+strings.Join(args, " "))
+					}
+				}
+			case *ast.AssignStmt:
+				if len(x.Lhs) == 1 && len(x.Rhs) == 1 {
+					if be, ok := x.Rhs[0].(*ast.BinaryExpr); ok && be.Op == token.ADD {
+						out = append(out, "assign "+exprString(x.Lhs[0])+" = "+exprString(be.X)+" + "+exprString(be.Y))
+					}
+				}
+				if len(x.Lhs) == 2 && len(x.Rhs) == 1 {
+					if ie, ok := x.Rhs[0].(*ast.IndexExpr); ok {
+						out = append(out, "lookup "+exprString(ie.X)+" "+exprString(ie.Index))
+					}
+				}
+			case *ast.BinaryExpr:
+				if x.Op == token.EQL {
+					out = append(out, "eq "+exprString(x.X)+" "+exprString(x.Y))
+				}
+			}
+			return true
+		})
+		return out
+	}
+	mapValuesFacts := callFacts("internal/j5s/j5convert/summary.go", "mapValues", "strings.HasPrefix")
+	optionByNameFacts := callFacts("lib/j5schema/root_schema.go", "OptionByName", "strings.TrimPrefix")
+	buildEnumFacts := callFacts("lib/j5schema/schema_from_proto.go", "buildEnum", "strings.HasSuffix", "strings.TrimSuffix", "strings.TrimPrefix")
+	listEnumFacts := callFacts("internal/j5client/list.go", "buildListRequest", "enumSchema.OptionByName")
+
 	fmt.Fprintf(w, "namespace J5V.Generated.Pipe\n")
 	fmt.Fprintf(w, "def fieldOneofMembers : List String := %s\n", leanStrList(members))
 	fmt.Fprintf(w, "def convertSchemaArms : List String := %s\n", leanStrList(convArms))
@@ -415,6 +499,11 @@ func extractPipe(w *strings.Builder) error {
 	fmt.Fprintf(w, "def walkRecursionPassesGuard : Bool := %s\n", leanBool(walkRecursivePass))
 	fmt.Fprintf(w, "def collectRefsHasVisitedMap : Bool := %s\n", leanBool(mapGuard("internal/j5client/j5package.go", "collectPackageRefs", "schemas")))
 	fmt.Fprintf(w, "def assertRefsHasVisitedMap : Bool := %s\n", leanBool(mapGuard("lib/j5schema/schema_set.go", "assertRefsLink", "seenSchemas")))
+	fmt.Fprintf(w, "def compileChecksEnumDefaults : Bool := %s\n", leanBool(enumDefaultsChecked))
+	fmt.Fprintf(w, "def mapValuesFacts : List String := %s\n", leanStrList(mapValuesFacts))
+	fmt.Fprintf(w, "def optionByNameFacts : List String := %s\n", leanStrList(optionByNameFacts))
+	fmt.Fprintf(w, "def buildEnumFacts : List String := %s\n", leanStrList(buildEnumFacts))
+	fmt.Fprintf(w, "def listEnumLookupFacts : List String := %s\n", leanStrList(listEnumFacts))
 	fmt.Fprintf(w, "end J5V.Generated.Pipe\n")
 	return nil
 }
